@@ -41,6 +41,9 @@ pub struct Profile {
     pub w_eof: u32,
     pub w_advance: u32,
     pub w_fill: u32,
+    /// malformed / hostile inbound bytes (invalid-packet deaths)
+    pub w_raw: u32,
+    pub w_pingresp: u32,
     /// keep-alive choices (seconds); non-zero values make PINGREQs appear after `Advance` steps
     pub keepalive: Vec<u16>,
     pub fail_reason_pct: u32,
@@ -90,6 +93,8 @@ impl Default for Profile {
             w_eof: 1,
             w_advance: 0,
             w_fill: 0,
+            w_raw: 0,
+            w_pingresp: 0,
             keepalive: vec![0],
             fail_reason_pct: 15,
             rm: vec![None, None, Some(1), Some(2), Some(3), Some(5), Some(8), Some(20), Some(65535)],
@@ -344,6 +349,22 @@ pub fn step(p: &Profile) -> BoxedStrategy<Step> {
     }
     if p.w_fill > 0 {
         alts.push((p.w_fill, (1u8..3, 0u8..12, any::<u8>()).prop_map(|(qos, slack, seed)| Step::PublishFill { qos, slack, seed }).boxed()));
+    }
+    if p.w_pingresp > 0 {
+        alts.push((p.w_pingresp, Just(Step::Broker(BrokerAct::PingResp)).boxed()));
+    }
+    if p.w_raw > 0 {
+        let raw = prop_oneof![
+            Just(vec![0x30u8, 0xFF, 0xFF, 0xFF, 0x7F]),                 // declared length far beyond any buffer
+            Just(vec![0x40u8, 0x80, 0x80, 0x80, 0x80, 0x01]),           // remaining length never terminates
+            Just(vec![0x41u8, 0x02, 0x00, 0x01]),                       // PUBACK with illegal flags
+            Just(vec![0x36u8, 0x05, 0x00, 0x01, 0x61, 0x00, 0x01]),     // QoS 3
+            Just(vec![0x10u8, 0x00]),                                   // client-only type
+            Just(vec![0xD0u8, 0x01, 0x00]),                             // PINGRESP with a body
+            Just(vec![0x30u8, 0x05, 0x00, 0x09, 0x61, 0x00, 0x00]),     // topic length past the packet
+            prop::collection::vec(any::<u8>(), 1..12),
+        ];
+        alts.push((p.w_raw, raw.prop_map(|b| Step::Broker(BrokerAct::Raw(b))).boxed()));
     }
     if p.w_advance > 0 {
         alts.push((p.w_advance, (1u32..20_000).prop_map(|ms| Step::Advance { ms }).boxed()));
